@@ -48,7 +48,14 @@ const RECEIVERS: &[&str] = &["und", "en-u-foo-ca-buddhist-t-en-k0-dvorak-x-priv"
 pub fn call_ep(ep: usize, b: &[u8]) -> Result<bool, String> {
     let s = std::str::from_utf8(b).ok();
     match ep {
-        0 => guard(|| LanguageIdentifier::from_bytes(b).is_ok()),
+        0 => guard(|| match LanguageIdentifier::from_bytes(b) {
+            Ok(_) => true,
+            Err(e) => {
+                // the error values themselves must print (Display/Debug are part of "returns Err")
+                let _ = (e.to_string(), format!("{:?}", e));
+                false
+            }
+        }),
         1 => guard(|| s.map_or(false, |s| s.parse::<LanguageIdentifier>().is_ok())),
         2 => guard(|| unic_langid_impl::canonicalize(b).is_ok()),
         3 => guard(|| unic_langid_impl::parser::parse_language_identifier(b).is_ok()),
@@ -61,10 +68,22 @@ pub fn call_ep(ep: usize, b: &[u8]) -> Result<bool, String> {
         5 => guard(|| Script::from_bytes(b).is_ok() | s.map_or(false, |s| s.parse::<Script>().is_ok())),
         6 => guard(|| Region::from_bytes(b).is_ok() | s.map_or(false, |s| s.parse::<Region>().is_ok())),
         7 => guard(|| Variant::from_bytes(b).is_ok() | s.map_or(false, |s| s.parse::<Variant>().is_ok())),
-        8 => guard(|| Locale::from_bytes(b).is_ok()),
+        8 => guard(|| match Locale::from_bytes(b) {
+            Ok(_) => true,
+            Err(e) => {
+                let _ = (e.to_string(), format!("{:?}", e));
+                false
+            }
+        }),
         9 => guard(|| s.map_or(false, |s| s.parse::<Locale>().is_ok())),
         10 => guard(|| unic_locale_impl::canonicalize(b).is_ok()),
-        11 => guard(|| unic_locale_impl::parser::parse_locale(b).is_ok()),
+        11 => guard(|| match unic_locale_impl::parser::parse_locale(b) {
+            Ok(_) => true,
+            Err(e) => {
+                let _ = (e.to_string(), format!("{:?}", e));
+                false
+            }
+        }),
         12 => guard(|| ExtensionsMap::from_bytes(b).is_ok() | s.map_or(false, |s| s.parse::<ExtensionsMap>().is_ok())),
         13..=18 => guard(|| {
             let mut any = false;
